@@ -268,3 +268,42 @@ func ExportSeveralKeys() {
 	}
 	vsym.Assert("K4-file-has-one-record-per-key", len(byField) == 3)
 }
+
+// UpgradeWhileSigning: a store holding a legacy record is opened by the current code and a signing
+// request for that key arrives at once, concurrently with whatever the service does in the
+// background after start-up (every interleaving within the bound): afterwards the export states
+// what was signed and a repeat of the signed attestation is refused.
+func UpgradeWhileSigning() {
+	ctx := context.Background()
+	dir := vsym.TempDir("A")
+	bytesA, vals := vsym.LegacyRecord("att", 2)
+	rawPut(dir, recKey(hc.KeyA, 0x02), bytesA)
+	vsym.Assume(vsym.And(vals[0] >= 0, vals[1] >= 0, vals[0] <= vals[1], vals[1] < 1<<40))
+	// goroutines started by the constructor run concurrently with the request below
+	vsym.DeferGoroutines(true)
+	a := hc.NewRules(ctx, dir)
+	s, t := uint64(vals[0])+1, uint64(vals[1])+2
+	req := &rules.SignBeaconAttestationData{Domain: attDomainC11(), BeaconBlockRoot: hc.Root,
+		Source: &rules.Checkpoint{Epoch: s, Root: hc.Root}, Target: &rules.Checkpoint{Epoch: t, Root: hc.Root}}
+	var res rules.Result
+	vsym.Explore(2)
+	vsym.Spawn(func() { res = a.OnSignBeaconAttestation(ctx, md(), req) })
+	vsym.Join()
+	vsym.Settle() // whatever runs in the background comes to rest
+	vsym.Sequential()
+	vsym.DeferGoroutines(false)
+	vsym.Assert("U0-advancing-attestation-over-legacy-record-approved", res == rules.APPROVED)
+	if res != rules.APPROVED {
+		return
+	}
+	vsym.Reach("signed-right-after-upgrade")
+	ex, err := a.ExportSlashingProtection(ctx)
+	hc.Must(err)
+	S2, T2, _ := hc.Exported(ex, hc.KeyA)
+	vsym.Assert("U1-export-states-what-was-signed", vsym.And(S2 == int64(s), T2 == int64(t)))
+	again := &rules.SignBeaconAttestationData{Domain: attDomainC11(), BeaconBlockRoot: hc.MkRoot(0x31),
+		Source: &rules.Checkpoint{Epoch: s, Root: hc.Root}, Target: &rules.Checkpoint{Epoch: t, Root: hc.Root}}
+	vsym.Assert("U2-repeat-of-the-signed-attestation-refused", a.OnSignBeaconAttestation(ctx, md(), again) != rules.APPROVED)
+}
+
+func attDomainC11() []byte { d := make([]byte, 32); d[0] = 1; return d }
